@@ -9,7 +9,8 @@ from ..cfg import ENTRY, EXIT
 from ..core import AnalysisError, FuncInfo, Report, call_name, dotted, unparse
 from ..ctx import Ctx
 from ..effects import mutating_closure, primary_mutators
-from .util import actual, calls_in, enclosing
+from .util import (actual, calls_in, enclosing, norm_compare,
+                   shared_object_uses)
 
 EXPLANATION = (
     "The classification of start/end/break nodes and loop-back edges is "
@@ -199,46 +200,17 @@ def r74(rep: Report, ctx: Ctx) -> None:
     prim = primary_mutators(ctx.index, {"event_sets", "in_event_sets",
                                         "loop_events", "break_events"})
     mut = mutating_closure(ctx.cg, prim)
-    pm = ctx.index.parents(sub)
     params = [p for p in sub.params()]
     for p in params:
-        bad, copies, uses = [], 0, 0
-        for n in ast.walk(sub.node):
-            if not (isinstance(n, ast.Name) and n.id == p and isinstance(
-                    n.ctx, ast.Load)):
-                continue
-            uses += 1
-            cur: ast.AST = n
-            call = None
-            while True:
-                par = pm.get(cur)
-                if isinstance(par, ast.Call) and cur is not par.func:
-                    call = par
-                    break
-                if isinstance(par, (ast.Tuple, ast.Attribute, ast.Subscript,
-                                    ast.Starred, ast.List)):
-                    cur = par
-                    continue
-                if isinstance(par, ast.Call) and cur is par.func:
-                    cur = par
-                    continue
-                break
-            if call is not None and (dotted(call.func) or "").split(".")[-1] \
-                    == "deepcopy":
-                copies += 1
-                continue
-            callees = [c.qualname for s in ctx.cg.sites_in(sub)
-                       if s.node is call for c in s.callees] if call else []
-            if call is None or not callees or any(q in mut for q in callees):
-                bad.append(call if call is not None else n)
+        copies, bad, aliases = shared_object_uses(ctx, sub, {p}, mut)
         ok = copies >= 1 and not bad
         rep.ob("R7.4", f"parameter '{p}' is only copied", ok, fi=sub,
-               node=bad[0] if bad else sub.node,
-               detail=(f"{uses} use(s), {copies} as operand of deepcopy"
+               node=bad[0][1] if bad else sub.node,
+               detail=(f"{copies} deepcopy call(s) receive it"
                        + ("" if not bad else
-                          f"; '{unparse(bad[0])[:70]}' works on the parent's "
-                          "own objects: carving the body would strip "
-                          "successor sets from the parent's events")))
+                          f"; '{unparse(bad[0][1])[:70]}' works on the "
+                          "parent's own objects: carving the body would "
+                          "strip successor sets from the parent's events")))
     if len(params) < 2:
         raise AnalysisError("create_sub_graph_of_loop: parameters changed")
 
@@ -277,11 +249,12 @@ def r75(rep: Report, ctx: Ctx) -> None:
                   "graph)")
     # returned triple = (copy graph, start, end)
     ret = [r for r in ast.walk(sub.node) if isinstance(r, ast.Return)]
-    ok = len(ret) == 1 and isinstance(ret[0].value, ast.Tuple) and len(
-        ret[0].value.elts) == 3
+    rv = ctx.reach(sub).resolve(ret[0].value, at=ret[0]) if len(ret) == 1 \
+        and ret[0].value is not None else None
+    ok = isinstance(rv, ast.Tuple) and len(rv.elts) == 3
     if ok:
         defs = ctx.defs(sub)
-        g = ret[0].value.elts[0]
+        g = rv.elts[0]
         binds = defs.of(g.id) if isinstance(g, ast.Name) else []
         ok = any(isinstance(b.value, ast.Call) and (dotted(b.value.func) or ""
                                                     ).endswith("deepcopy")
@@ -322,8 +295,9 @@ def r76(rep: Report, ctx: Ctx, det: FuncInfo) -> None:
             isinstance(tri[-1].targets[0], ast.Tuple) else []
         mk = calls_in(ctx, det, ctx.func("create_loop_event"))
         le = enclosing(det.node, mk[0], (ast.Assign,)) if mk else []
+        lp = actual(calls_in(ctx, det, sub)[0], sub, sub.params()[0])
         ok = len(names) == 3 and a[:2] == names[1:] and a[2] == \
-            "loop.break_events" and bool(le) and a[3] == unparse(
+            f"{unparse(lp)}.break_events" and bool(le) and a[3] == unparse(
                 le[-1].targets[0])
     rep.ob("R7.6", "detect_loops hands over the body's dummy entry/exit and "
            "the breaks", ok, fi=det, node=cs[0] if cs else det.node,
@@ -368,9 +342,17 @@ def r77(rep: Report, ctx: Ctx) -> None:
                      "root (e.g. the earlier events of a multi-event break "
                      "branch) survive next to their copies in the loop "
                      "body"))
-    anchor = defs.resolve_deep(c.args[1]) if len(c.args) > 1 else None
+    anchor = ctx.reach(upd).resolve_deep(c.args[1], at=c) \
+        if len(c.args) > 1 else None
     atext = unparse(anchor) if anchor is not None else ""
-    ok = "in_degree" in atext and "== 0" in atext
+    ok = False
+    for cmp_ in [n for n in ast.walk(anchor)
+                 if isinstance(n, ast.Compare)] if anchor is not None else []:
+        nc = norm_compare(cmp_)
+        if nc is not None and nc[1] is ast.Eq and isinstance(
+                nc[2], ast.Constant) and nc[2].value == 0 and "in_degree" in \
+                atext:
+            ok = True
     rep.ob("R7.7", "reachability is measured from the graph's root", ok,
            fi=upd, node=c, detail=f"anchor = {unparse(c.args[1]) if len(c.args) > 1 else '?'} "
            "(the in-degree-0 event taken before the rewrite)")
